@@ -35,7 +35,7 @@ def run(ctx):
     ctx.rule_text = 'one obligation per exp site / returned table / reduction primitive / mutation site in BP / message equation / elimination step'
     ctx.trusted = ['calibrated beliefs of all cliques share one logZ (the normaliser is taken from the first clique)',
                    'scipy.special.logsumexp; networkx graph primitives']
-    bp = repo.func(GM, 'GraphicalModel.belief_propagation')
+    bp = repo.nfunc(GM, 'GraphicalModel.belief_propagation')
     an, n = LR.L1(ctx, bp)
     ctx.floor('exp sites on the BP path', n, 1)
     k = LR.L2_container(ctx, bp, an, 'self.total')
@@ -144,7 +144,7 @@ def check_equations(ctx, bp):
 
 
 def check_fill_in(ctx):
-    fi = ctx.repo.func(JT, 'JunctionTree._triangulated')
+    fi = ctx.repo.nfunc(JT, 'JunctionTree._triangulated')
     ctx.analysed(fi)
     loops = [s for s in fi.body if isinstance(s, ast.For) and isinstance(s.target, ast.Name)]
     if len(loops) != 1:
@@ -190,7 +190,7 @@ def check_fill_in(ctx):
 
 
 def check_tree_connected(ctx):
-    fi = ctx.repo.func(JT, 'JunctionTree._make_tree')
+    fi = ctx.repo.nfunc(JT, 'JunctionTree._make_tree')
     ctx.analysed(fi)
     loops = [s for s in walk_shallow(fi.node) if isinstance(s, ast.For) and isinstance(s.iter, ast.Call)
              and U(s.iter.func).endswith('combinations') and len(s.iter.args) == 2 and U(s.iter.args[1]) == '2']
